@@ -66,6 +66,13 @@
 (* A closed position is (pnl, cost, t) with cost = price_entry_average *   *)
 (* quantity_abs_max > 0 and exit time t; its return is pnl / cost          *)
 (* (engine/state/position.rs calculate_pnl_return).                        *)
+(* The tear sheet is a function of the CLOSED positions ONLY: a position    *)
+(* that is still open - just opened, increased, or partly reduced with PnL  *)
+(* already realised - is no part of the history and contributes nothing to  *)
+(* any figure until the fill that closes it (the binding generates          *)
+(* summaries through the engine while such positions are open).  A starting *)
+(* balance given to the builder of the engine state is an AddBalance like   *)
+(* any other: the first accepted snapshot of its asset, at session start.   *)
 (*                                                                         *)
 (* LATE EXITS.  C16 speaks of ANY sequence of closed positions: a position  *)
 (* may be delivered after one whose exit time is later (fills redelivered   *)
